@@ -232,6 +232,15 @@ def section_building(ctx, F):
                 okr = True
         ctx.ob(R, "subsection-reset-if-empty|%s" % fn, okr and bool(adds), "an empty pending subsection is re-created at the current id before any entry is added", b.where(),
                what="%s can add an entry to an empty pending subsection whose starting id is stale (after a run of unused object numbers)" % fn)
+        # a subsection that was written out is re-created before anything is added to it (or written) again: otherwise the
+        # entries after a run of unused numbers are appended to the old subsection and filed under numbers that are too small
+        flushes = [c for c in b.calls if c.local and c.cname.endswith("XrefSection::write_xref_section") and any(c.bb in bl for bl in loops.values())]
+        for w in flushes:
+            again = [a for a in adds + [x for x in b.calls if x.local and x.cname.endswith("XrefSection::write_xref_section")]
+                     if lib.feasible_reach(b, w.bb, a.bb, avoid=[c.bb for c in news])]
+            ctx.ob(R, "flushed-subsection-recreated|%s" % fn, not again, "after write_xref_section the pending subsection is re-created before it is used again", b.where(w.ln),
+                   what="%s writes a subsection out and goes on using it (line(s) %s) without starting a new one: the entries after a hole in the numbering are filed under the wrong object numbers and the subsection is written twice"
+                        % (fn, sorted({a.ln for a in again})))
     # table starts with object 0 free
     wx = F.fn("Writer::write_xref")
     first = [c for c in wx.calls if c.local and c.cname.endswith("XrefSection::new") and wx.oname(c.args[0], 2) == "0"]
